@@ -868,6 +868,9 @@ func (t *loopTr) simple(st ast.Stmt) []binding {
 				return bind("", 0, "")
 			}
 			o, name, k := t.localVar(l)
+			if v, ok := t.pow2Window(s, o, k); ok {
+				return bind(name, k, v) // stage 14 (loops_pow2.go): chunk := x[a:b], a read-only window of a read-only parameter
+			}
 			if s.Tok == token.DEFINE || s.Tok == token.ASSIGN {
 				t.noAlias(s.Rhs[0], "assignment")
 				t.selfAppend = nil
@@ -1154,8 +1157,14 @@ func (t *loopTr) rangeStmt(s *ast.RangeStmt, ind string, m blockMode, rest func(
 
 // loopOver renders a loop whose body is run for the elements of `list` (bound by `binder`) in order.
 func (t *loopTr) loopOver(s ast.Node, body *ast.BlockStmt, list, binder, ind string, m blockMode, rest func(string) string) string {
+	return t.loopOverScope(s, s, body, list, binder, ind, m, rest)
+}
+
+// loopOverScope: the variables declared inside scope are not loop state (for a three-clause loop with additional init
+// variables scope is the body: these variables are declared in the loop statement but live across iterations).
+func (t *loopTr) loopOverScope(s, scope ast.Node, body *ast.BlockStmt, list, binder, ind string, m blockMode, rest func(string) string) string {
 	pre := t.guards(s, ind, m)
-	objs := t.stateOf(body, s)
+	objs := t.stateOf(body, scope)
 	tup, ty := t.tuple(objs)
 	in := ind + "    "
 	elemPre := strings.ReplaceAll(t.loopPre, "\x00", in) // bindings of the loop variables out of the element (rangeRunes)
